@@ -241,6 +241,7 @@ MODES = {
     "order-dir": [],
     "order-physical": [],
     "threads": [],
+    "rehash-pending": [],
 }
 
 
@@ -270,12 +271,12 @@ def run(ctx):
             if mode.startswith("order-"):
                 # replace the alphabetical order switch
                 pass
-            for op in base_ops():
+            for op in base_ops() + ([("cmd", "rehash")] if mode == "rehash-pending" else []):
                 r = X.apply_op(L0, op)
                 if r is not None and r.rc != 0:
                     raise RuntimeError("base sync failed\n" + r.text())
             saved = L0.save()
-        depth = d if mode == "alpha" else (1 if tier == "quick" else 2)
+        depth = d if mode == "alpha" else (2 if mode == "rehash-pending" else (1 if tier == "quick" else 2))
         seqs = []
         for k in range(0, depth + 1):
             for s in itertools.product(names, repeat=k):
